@@ -705,6 +705,35 @@ def _slice_bounds(idx: Term):
     return f(lo), f(hi), f(st)
 
 
+def _band_bounds(lo: V, hi: V, n=None):
+    """(a, b) with  seq[lo:hi] == the elements j of seq with a <= j < b : lo is `max(0, a)` (or absent), hi is `b` / `min(len, b)` (or
+    absent); None when the bounds have another form (a bare symbolic lower bound may be negative: python then counts from the end)"""
+    def clamp(v, op):
+        if isinstance(v, Const) and v.v is None:
+            return None, True
+        if isinstance(v, Term) and v.op == op and all(isinstance(a, Num) for a in v.args):
+            rest = [a.p for a in v.args if not (op == "max" and a.p.is_const() and a.p.as_const() <= 0)]
+            if op == "max" and len(rest) == 1 and len(rest) < len(v.args):
+                return rest[0], True
+            if op == "min":
+                # min(len, b): the length operand only repeats python's clipping
+                rest = [a.p for a in v.args if not (n is not None and a.p == n)]
+                if len(rest) == 1 and len(rest) < len(v.args):
+                    return rest[0], True
+        return None, False
+    a, oka = clamp(lo, "max")
+    if oka is not True:
+        return None
+    if isinstance(hi, Num):
+        if hi.p.is_const() and hi.p.as_const() < 0:
+            return None
+        return a, hi.p
+    b, okb = clamp(hi, "min")
+    if okb is True:
+        return a, b
+    return None
+
+
 def _norm_bound(b: Poly, n: Poly, default: Poly, interp=None):
     """python slice bound normalisation for symbolic n: negative constants count from the end"""
     if b is None:
@@ -755,6 +784,13 @@ def grid_subscript(interp, g: Grid, idx: V, node) -> V:
             continue
         if isinstance(it, Term) and it.op == "slice":
             lo, hi, st = _slice_bounds(it)
+            if "?" in (lo, hi) and st is None and len(items) == 1 and len(dims) == 1 and len(d) == 1:
+                # window `seq[max(0, a):min(n, b)]` of a one-dimensional array: kept symbolic; `enumerate(.., start=max(0, a))` re-enters
+                # it as the full loop under the band condition a <= j < b (clipping at 0 and n is what python's slice does anyway)
+                band = _band_bounds(it.args[0], it.args[1], n)
+                if band is not None:
+                    return Term("gslice", [g, it.args[0], it.args[1]], {"band": TupleV([Num(band[0]) if band[0] is not None else Const(None),
+                                                                                         Num(band[1]) if band[1] is not None else Const(None)])})
             if "?" in (lo, hi, st):
                 return Top("non-numeric slice bound")
             if st is not None and not (st == Poly.const(1)):
@@ -1530,6 +1566,10 @@ def call_builtin(interp, name, args, kwargs, node, cc) -> Optional[V]:
             return Term("range", args)
         return Top("range of non-numeric")
     if name == "enumerate":
+        if kwargs and "start" in kwargs and len(args) == 1:
+            return Term("enumerate", list(args) + [kwargs["start"]])
+        if kwargs:
+            return Top("enumerate with unrecognised options")
         return Term("enumerate", args)
     if name == "zip":
         return Term("zip", args)
